@@ -98,13 +98,18 @@ pub async fn handle_notify_get_or_head(
         return Err(req)
     }
 
+    // Subscribe before looking at the current version. Otherwise an update
+    // that is installed and notified between the check and the subscription
+    // is missed and the request waits for the update after that.
+    let mut receiver = notify.subscribe();
+
     let wait = match need_wait(&req, history) {
         Ok(wait) => wait,
         Err(resp) => return Ok(resp),
     };
 
     if wait {
-        notify.subscribe().recv().await;
+        receiver.recv().await;
     }
 
     if req.is_head() {
